@@ -216,8 +216,9 @@ def reaction_emitters(run, repo):
                     out.append(str(s_.value).strip(Z))
         return out
 
-    for adsorption, user_ea, pcoef in ((False, False, C(2)), (True, False, C(2)), (False, True, C(2)),
-                                       (False, False, C(Fr(3, 2)))):
+    for adsorption, user_ea, pcoef, motz in ((False, False, C(2), False), (True, False, C(2), False),
+                                             (False, True, C(2), False), (False, False, C(Fr(3, 2)), False),
+                                             (True, False, C(2), True)):
         I = Interp(repo)
         D = I.D
         fr = Frame(I, repo.module('pmutt'), {}, None, None)
@@ -236,9 +237,10 @@ def reaction_emitters(run, repo):
         r0 = g if adsorption else a3
         rxn = make_reaction(I, repo, ci, [r0, a], [C(1), C(1)], [b], [pcoef], id=rid, is_adsorption=adsorption,
                             A=None, beta=D.sym('beta'), Ea=D.sym('Ea_user') if user_ea else None, direction=None,
-                            sticking_coeff=D.sym('stick'), use_motz_wise=False)
+                            sticking_coeff=D.sym('stick'), use_motz_wise=motz)
         T, P = D.sym('T'), D.sym('P')
-        label = 'adsorption=%s user Ea=%s' % (adsorption, user_ea) + ('' if pcoef.eq(C(2)) else ' product coefficient 3/2')
+        label = 'adsorption=%s user Ea=%s' % (adsorption, user_ea) + ('' if pcoef.eq(C(2)) else ' product coefficient 3/2') \
+            + (' Motz-Wise' if motz else '')
         spnames = [r0.attrs['name'], a.attrs['name'], b.attrs['name']]
         if user_ea:
             wantE = D.sym('Ea_user') * D.sym('U<kJ>') / D.sym('U<kcal>')
@@ -299,6 +301,9 @@ def reaction_emitters(run, repo):
                   'the equation entry is %s: every species once, each separated from its coefficient'
                   % show(eq_, 120), owner.module, fn)
         if adsorption:
+            run.check(d.d.get('Motz-Wise') is motz, 'DATAFLOW.reaction', 'SurfaceReaction.to_omkm_yaml',
+                      label + ' Motz-Wise flag', 'the Motz-Wise entry is %s for a reaction built with use_motz_wise=%s'
+                      % (show(d.d.get('Motz-Wise')), motz), owner.module, fn)
             run.check(I.plain(d.d.get('sticking-species')) == g.attrs['name'], 'DATAFLOW.reaction',
                       'SurfaceReaction.to_omkm_yaml', label + ' sticking species',
                       'sticking species is %s, expected the gas reactant' % show(d.d.get('sticking-species')),
